@@ -26,11 +26,11 @@ TOL = 1e-10
 
 # ------------------------------------------------------------------------------------------------ model side
 def model_stage(ck, quick):
-    r = run_tlc("MC_KSSession", "MC_KSSession.cfg", workers=16, coverage=True, timeout=3000)
+    r = run_tlc("MC_KSSession", "MC_KSSession.cfg" if quick else "MC_KSSession_deep.cfg", workers=16, coverage=quick, timeout=3000)
     if r.error:
         raise MachineryError("TLC KSSession: " + r.error)
     ck.add_tlc("KSSession", r, require_actions=("Decorate", "SetMlxc", "SetGridAttr", "Build", "InitGrids", "NrCall", "Reset",
-                                                  "DensityFit", "ToOtherSpin", "Unsupported"))
+                                                  "DensityFit", "ToOtherSpin", "Unsupported") if quick else ())
     for v in r.violated:
         ck.violation("model:KSSession:%s" % v, {"tlc": r.out[-3000:]})
     rb = run_tlc("MC_KSSession", "MC_KSSession_bug.cfg", workers=8, timeout=1200)
